@@ -13,6 +13,7 @@
 #include <typeinfo>
 #include <unistd.h>
 #include <cassert>
+#include <cerrno>
 #include "hexasm.hpp"
 
 static std::string unhex(const std::string &h) {
@@ -32,6 +33,12 @@ static std::string className(const std::exception &e) {
   auto p = r.rfind("::"); return p == std::string::npos ? r : r.substr(p + 2);
 }
 
+// `errno` is process state the code under test can read (strtoul & co.): the harness's own libc calls (unlink of a file
+// that is not there, stream opens) must not change what the NEXT assembly finds there.  The value the real code left is
+// kept aside while the harness works and put back before the real code runs again.
+static int g_code_errno = 0;
+struct ErrnoScope { ErrnoScope() { errno = g_code_errno; } ~ErrnoScope() { g_code_errno = errno; } };
+
 int main(int argc, char **argv) {
   if (argc > 1 && chdir(argv[1]) != 0) { perror("chdir"); return 2; }
   std::string line;
@@ -43,6 +50,7 @@ int main(int argc, char **argv) {
     unlink("h_asm.out");
     alarm(10);   // watchdog: a hang in the real code kills the process (SIGALRM), reported as `fault hang`
     try {
+      ErrnoScope es;
       hexasm::Lexer lexer;
       lexer.loadBuffer(src);
       if (cmd == "tok") {
@@ -53,10 +61,12 @@ int main(int argc, char **argv) {
         auto program = parser.parseProgram();
         hexasm::CodeGen codeGen(program);
         std::ostringstream text; codeGen.emitProgramText(text);
-        unlink("h_asm.out");
+        { int keep = errno; unlink("h_asm.out"); errno = keep; }
         codeGen.emitBin("h_asm.out");
+        int keep = errno;
         std::ifstream f("h_asm.out", std::ios::binary);
         std::stringstream bin; bin << f.rdbuf();
+        errno = keep;
         res = "ok " + tohex(bin.str()) + " " + tohex(text.str());
       }
     } catch (const hexutil::Error &e) {
